@@ -7,12 +7,14 @@
    nothing else - Permutation (matches f (rename m)) (map (map phi) (matches f m)).
    The step that consumes an ORDERED ring list (Benson aromatisation) is
    spelling-free for a single ring and order dependent for fused rings
-   (refutation = known finding).  PARTIAL: the lift to the descriptor
-   dictionary and RDKit producing isomorphic prepared graphs for equivalent
+   (refutation = known finding).  The centre assignment is numbering
+   independent too (C03_centres_renumbering).  PARTIAL: the last step to the
+   descriptor dictionary (group naming is local, counts are sums over atoms)
+   and RDKit producing isomorphic prepared graphs for equivalent
    spellings are decided on the implementation by the spelling oracle. *)
 From Coq Require Import List NArith ZArith Arith Bool.
 From Coq Require Import Permutation.
-From PG Require Import Common.Strs Ring.Peg Ring.Reader Ring.Reader_proofs Graph.Mol Graph.Match Graph.Match_proofs Graph.Embed Graph.Embed_inst Graph.Scheme Graph.Scheme_proofs.
+From PG Require Import Common.Strs Ring.Peg Ring.Reader Ring.Reader_proofs Graph.Mol Graph.Match Graph.Match_proofs Graph.Embed Graph.Embed_inst Graph.Scheme Graph.Scheme_proofs Graph.Centres_proofs Graph.Centres_equiv.
 Import ListNotations.
 
 (* ---------- matching commutes with renumbering ---------- *)
@@ -35,6 +37,26 @@ Proof.
   apply matches_rename; auto. eapply read_fragment_wf; eauto.
 Qed.
 Print Assumptions C03_matches_renumbering.
+
+(* one level up: WHICH centre pattern classifies an atom is numbering independent.  For a scheme whose pattern
+   fragments are what the reader produces (good_frag: C03_reader_gives_good_frag) the renumbered molecule is
+   decomposable iff the molecule is, and atom phi a carries the centre / peripheral names atom a carried. *)
+Theorem C03_reader_gives_good_frag : forall elements xlower t f,
+  read_fragment elements xlower t = ROk' f -> f_mol f = [] -> good_frag f.
+Proof.
+  intros elements xlower t f H Hm. destruct (read_fragment_connected elements xlower t f H) as [C N].
+  split; [eapply read_fragment_wf; eauto|]. split; [exact Hm|]. split; [exact C|exact N].
+Qed.
+
+Theorem C03_centres_renumbering : forall m phi psi sch, wf_mol m -> wf_rings m ->
+  (forall i, i < natom m -> phi i < natom m /\ psi (phi i) = i) ->
+  (forall k, k < natom m -> psi k < natom m /\ phi (psi k) = k) ->
+  (forall p, In p (s_patterns sch) -> good_frag (p_frag p)) ->
+  ((exists nm, assign_centres sch m = SOk nm) <-> (exists NM, assign_centres sch (rename_mol phi psi m) = SOk NM))
+  /\ (forall nm NM, assign_centres sch m = SOk nm -> assign_centres sch (rename_mol phi psi m) = SOk NM ->
+        forall a, a < natom m -> nth_error NM (phi a) = nth_error nm a).
+Proof. intros m phi psi sch W R P1 P2. exact (assign_centres_rename m phi psi W R P1 P2 sch). Qed.
+Print Assumptions C03_centres_renumbering.
 
 (* the general form: any component embedding (renumbering, or a molecule inside a larger graph) *)
 Theorem C03_matches_under_embedding : forall phi m M, embeds phi m M -> forall f img, wf_bonds f -> f_mol f = [] ->
